@@ -50,7 +50,7 @@ static VSetSet blockers(const View& w, int nv) {
 }
 
 template <class Model>
-void execution(Model& m, std::mt19937_64& rng, int steps, int nv) {
+void execution(Model& m, std::mt19937_64& rng, int steps, int nv, bool scripted = false) {
   auto rnd = [&](int k) { return static_cast<int>(rng() % static_cast<std::uint64_t>(k)); };
   auto emit = [&](bj::object ev) {
     ev["obs"] = m.observe();
@@ -61,6 +61,31 @@ void execution(Model& m, std::mt19937_64& rng, int steps, int nv) {
   emit(bj::object{{"op", "reset"}});
   int n = 0;  // handles given out so far
   int style = rnd(3);  // 0: mostly flag-like growth, 1: blockers through add_edge, 2: simplex by simplex
+  // Scripted prologue (every fourth execution, 6 handles or more): a blocker {a} + alpha through the vertex that a
+  // contraction keeps, alpha inside the link of the vertex that disappears, and two or three further neighbours of
+  // a and alpha ("tips"): the contraction has to produce one new blocker per tip.
+  std::vector<bj::object> script;
+  if (scripted && nv >= 6) {
+    std::vector<int> role(static_cast<std::size_t>(nv));
+    for (int i = 0; i < nv; ++i) role[static_cast<std::size_t>(i)] = i;
+    std::shuffle(role.begin(), role.end(), rng);
+    const int a = role[0], b = role[1], x = role[2], y = role[3];
+    const int ntips = std::min(nv - 4, 2 + rnd(2));
+    for (int i = 0; i < 4 + ntips; ++i) script.push_back({{"op", "add_vertex"}});
+    auto edge = [&](int u, int v) { script.push_back({{"op", "add_edge_wb"}, {"a", u}, {"b", v}}); };
+    // handles are given out in increasing order: only handles below 4 + ntips exist, so the roles are drawn among them
+    std::vector<int> h;
+    for (int i = 0; i < 4 + ntips; ++i) h.push_back(i);
+    std::shuffle(h.begin(), h.end(), rng);
+    const int A = h[0], B = h[1], X = h[2], Y = h[3];
+    (void)a; (void)b; (void)x; (void)y;
+    edge(A, B); edge(A, X); edge(A, Y); edge(B, X); edge(B, Y); edge(X, Y);
+    for (int t = 0; t < ntips; ++t) { const int T = h[static_cast<std::size_t>(4 + t)]; edge(A, T); edge(X, T); edge(Y, T); }
+    VSet tri{A, X, Y};
+    std::sort(tri.begin(), tri.end());
+    script.push_back({{"op", "remove_star"}, {"s", jarr(tri)}, {"via", "simplex"}});
+    script.push_back({{"op", "contract"}, {"a", A}, {"b", B}, {"via", rnd(2) ? "pair" : "edge"}});
+  }
   for (int stp = 0; stp < steps; ++stp) {
     View w;
     for (unsigned mk = 1; mk < (1u << nv); ++mk) {
@@ -86,6 +111,7 @@ void execution(Model& m, std::mt19937_64& rng, int steps, int nv) {
       return c.empty() ? VSet() : c[rnd(static_cast<int>(c.size()))];
     };
     bj::object act;
+    if (stp < static_cast<int>(script.size())) act = script[static_cast<std::size_t>(stp)];
     for (int tries = 0; tries < 300 && act.empty(); ++tries) {
       int c = rnd(100);
       int nvv = static_cast<int>(w.verts.size());
@@ -171,7 +197,7 @@ void record(const std::string& path, std::uint64_t seed, int executions, int ste
       setrlimit(RLIMIT_CPU, &rl);
       std::mt19937_64 rng(seed * 1000003ull + static_cast<std::uint64_t>(ex));
       Model m;
-      execution(m, rng, steps, nv);
+      execution(m, rng, steps, nv, ex % 4 == 3);
       std::fflush(g_f);
       _exit(0);
     }
